@@ -127,6 +127,7 @@ def main(argv=None):
         samples.extend(o.get("samples", [])[:1])
 
     by_name = {r["obligation"]: r for r in results}
+    bounded_reports = []
     violations = []
     known_lines = []
     n_ob = n_ok = 0
@@ -140,6 +141,15 @@ def main(argv=None):
         if r["kind"] == "agreement":
             if r["status"] != "proved":
                 broken.append("engine and CPython disagree: %s: %s" % (name, r.get("detail")))
+            continue
+        if r["kind"] == "bounded":
+            # bounded structural cross-check / fall-back: reported, never counted as discharged
+            bounded_reports.append({"name": name, "status": {"proved": "ok", "failed": "violation"}.get(r["status"], r["status"]),
+                                    "label": "bounded (not proof)", "backend": r.get("backend"), "seconds": r.get("seconds")})
+            if r["status"] == "failed":
+                violations.append(r)
+            elif r["status"] != "proved":
+                undecided.append("%s: %s %s" % (name, r["status"], r.get("detail", "")))
             continue
         kf = known_by_ob.get(name)
         if kf is not None and kf.get("status") == "known":
@@ -166,13 +176,15 @@ def main(argv=None):
             undecided.append("%s: %s %s" % (name, r["status"], r.get("detail", "")))
 
     # bounded stand-ins (thorough tier only; never counted as proved)
-    standin_reports = []
+    standin_reports = list(bounded_reports)
     if tier == "thorough" and not a.only:
+        ran = []
         try:
-            standin_reports = standins.run_for(a.prop, seed)
+            ran = standins.run_for(a.prop, seed)
+            standin_reports = standin_reports + ran
         except Exception as e:
             broken.append("stand-in harness: %r" % (e,))
-        for sr in standin_reports:
+        for sr in ran:
             if sr.get("status") == "violation":
                 violations.append({"obligation": "%s/standin/%s" % (a.prop, sr["name"]), "status": "failed",
                                    "replay": sr.get("replay"), "kind": "bounded-standin", "confirmed": sr.get("confirmed", True)})
@@ -226,6 +238,8 @@ def main(argv=None):
         print(l)
     for l in viol_lines:
         print(l)
+    for br in bounded_reports:
+        print("BOUNDED-CHECK %s %s" % (br["status"], br["name"]))
     for u in undecided:
         print("UNDECIDED " + u)
     for b in broken:
